@@ -124,8 +124,12 @@ func genRpcSpec(t *rapid.T, maxBody int, needSource bool) RpcSpec {
 	}
 	if rapid.Bool().Draw(t, "body") {
 		p := kit.GenPayload(maxBody).Draw(t, "bodyp")
-		if rapid.IntRange(0, 9).Draw(t, "bigbody") == 0 {
+		switch rapid.IntRange(0, 19).Draw(t, "bigbody") {
+		case 0, 1:
 			p = kit.Payload{Class: "rand", Len: rapid.IntRange(maxBody/2, maxBody).Draw(t, "biglen"), Seed: rapid.Uint64().Draw(t, "bigseed")}
+		case 2:
+			// the documented upper end of the body range and its neighbours
+			p = kit.Payload{Class: "rand", Len: (1 << 20) - rapid.SampledFrom([]int{0, 0, 1, 2, 16, 4096}).Draw(t, "below1MiB"), Seed: rapid.Uint64().Draw(t, "bigseed")}
 		}
 		s.Body = &p
 	}
@@ -322,15 +326,18 @@ func execC19RT(t *testing.T, c C19RT) (v Verdict) {
 			}
 		}
 	}
-	big := false
+	big, mib := false, false
 	presence := map[string]bool{}
 	for _, s := range c.Rpcs {
-		if s.Body != nil && len(s.Body.Bytes()) > 32768 {
+		if s.Body != nil && s.Body.Len > 32768 {
 			big = true
+		}
+		if s.Body != nil && s.Body.Len >= (1<<20)-4096 {
+			mib = true
 		}
 		presence[fmt.Sprintf("%v%v%v%v%v", s.Header != nil, s.Status != nil, s.Body != nil, s.Trailer != nil, s.Reset != nil)] = true
 	}
-	v.Info = kit.CaseInfo{Labels: []string{"rt." + c.Transport, fmt.Sprintf("bigbody=%v", big)}, NonTrivial: len(c.Rpcs) >= 2 || big, Key: fmt.Sprintf("%+v", c),
+	v.Info = kit.CaseInfo{Labels: []string{"rt." + c.Transport, fmt.Sprintf("bigbody=%v", big), fmt.Sprintf("body~1MiB=%v", mib)}, NonTrivial: len(c.Rpcs) >= 2 || big, Key: fmt.Sprintf("%+v", c),
 		Sample: map[string]any{"transport": c.Transport, "envelopes": len(c.Rpcs), "presence_combinations": len(presence), "first": truncStr(want[0].String())}}
 	return
 }
